@@ -120,7 +120,7 @@ def atom(draw, sizes, names, exts, mtimes, uids):
         if col in ("name",):
             base = draw(st.sampled_from(names or ["a"]))
         elif col == "ext":
-            base = draw(st.sampled_from(exts or ["txt"]))
+            base = draw(st.sampled_from((exts or ["txt"]) + [""]))      # the empty extension is a value like any other
         elif col == "mode":
             base = draw(st.sampled_from(["-rw-r--r--", "drwxr-xr-x", "lrwxrwxrwx", "-rwsr-xr-x", "-rw-------", "-r--r--r--"]))
         elif col == "path":
@@ -167,8 +167,10 @@ def atom(draw, sizes, names, exts, mtimes, uids):
                 lit = rx_escape(base[len(base) // 2:]) + "$"
             else:
                 lit = "^" + rx_escape(lit) + "$"
-        if not lit or all(q in lit for q in "'\"`"):
+        if all(q in lit for q in "'\"`"):
             lit = "zz"
+        if not lit and fam == "rx":
+            lit = "zz"            # an empty regular expression matches everything: not an interesting atom
         return {"kind": "text", "fam": fam, "col": col, "op": op, "lit": lit}
     if kind == "bool":
         col = draw(st.sampled_from(BOOL_COLS))
